@@ -134,10 +134,11 @@ CLAIMED = {
         technique="Coq proof (stable insertion sort = bucket concatenation, induction over lists and ranges) + model/implementation and spec/GNU-ld correspondence on generated links",
         design_ref="DESIGN.md §3 C30"),
     "C33": dict(
-        text="S1: Gallina models of wild's --wrap handling (apply_wrapped_symbol_overrides: a sequential rewrite of the global name table over the --wrap list) and of GNU ld's rule (a one-step "
-             "renaming applied to undefined references). Theorems: closed form of wild's table for every duplicate-free list of wrapped base names; for every name table in which each wrapped S "
+        text="S1: Gallina models of wild's --wrap handling (apply_wrapped_symbol_overrides: all look-ups in the unmodified name table first, then the overrides in --wrap order; the pinned "
+             "tree interleaved them) and of GNU ld's rule (a one-step renaming applied to undefined references). Theorems: closed form of wild's table for every list of wrapped base names, "
+             "repetitions included (the pinned tree is refuted for a repeated name; repaired in /repo); for every name table in which each wrapped S "
              "has a __wrap_S (and no stray __real_S when S is undefined), every referenced name binds under wild exactly as under GNU ld (S -> __wrap_S, __real_S -> S, all else unchanged); "
-             "references from the defining object are unaffected in both. Three refutation theorems delimit the domain; each is reproduced against wild and GNU ld and recorded.",
+             "references from the defining object are unaffected in both. Two refutation theorems delimit the domain; each is reproduced against wild and GNU ld and recorded.",
         note="Trusted: the GNU ld side is a specification, validated on every run against ld 2.40 on the generated programs; the tie is behavioural (generated programs are linked by both linkers and "
              "run; each call site reports which function it reached), with definitions in objects, archive members and a shared library. Symbol versions/LTO are outside the generated inputs.",
         technique="Coq proof (induction over the --wrap list, closed form of the fold) + model/implementation and spec/GNU-ld correspondence on generated, executed programs",
@@ -197,8 +198,10 @@ CLAIMED = {
              "and of GNU ld's bfd_find_version_for_sym (first exact node; else the last global wildcard node, else local; the bare `*` last), each node abstracted to its match bits for one "
              "symbol. Theorem: for every script and symbol whose wildcard matches are of one kind and where no local-only wildcard node follows a global wildcard node, wild picks GNU ld's "
              "node and hides the symbol exactly when GNU ld does. Two refutation theorems delimit the domain (recorded). The verdef/versym consistency is a structural predicate evaluated "
-             "on wild's output (indices, vd_cnt/vda_next chains, parents, hashes, sh_info), not a theorem.",
-        note="Trusted: whether one pattern matches one name is fnmatch (C15); GNU ld's side is validated on every run against ld 2.40 (0 disagreements); extern C++ patterns, sym@VER definitions, "
+             "on wild's output (indices, vd_cnt/vda_next chains, parents, hashes, sh_info), not a theorem. From the TEXT (C32/FromText.v): parser model (C22/VScript.v) + glob-crate and fnmatch "
+             "models (C15) + the two searches give the version of a symbol as a function of the script's bytes; theorem: for every text that parses as versions whose wildcard patterns have "
+             "no backslash and every name with canonical match bits, wild's version = GNU ld's.",
+        note="Trusted: whether one pattern matches one name is fnmatch (C15); the driver's match bits (Python fnmatch) are cross-checked on every run against the text-level model evaluated in Coq; GNU ld's side is validated on every run against ld 2.40 (0 disagreements); extern C++ patterns, sym@VER definitions, "
              "anonymous scripts and shared-library version requirements are outside the generated inputs.",
         technique="Coq proof (induction over the node list relating a reverse scan to GNU ld's forward scan) + model/implementation and spec/GNU-ld correspondence on generated scripts",
         design_ref="DESIGN.md §3 C32"),
@@ -277,14 +280,15 @@ CLAIMED = {
         technique="Coq proof (permutation / completion-order invariance of the four mechanisms) + byte-for-byte differential runs of the real binary",
         design_ref="DESIGN.md §3 C06"),
     "C20": dict(
-        text="S1: one input path over time: a file system that stamps every modification with a forward-moving clock; wild records the modification time at open (before the mmap), reads "
-             "through the mapping at any time, and compares at the end (also when linking failed). Theorems: any rewrite, append, touch or replacement by a freshly written file after the open "
-             "makes the verdict `changed`, whatever else happens before, between and after; an untouched input is accepted; recording the time after the mmap is refuted (the seeded change), "
-             "and so is a replacement that carries the old modification time over (known finding).",
+        text="S1: one input path over time: a file system that stamps every modification with a forward-moving clock and gives every new file a fresh inode; wild records the file's identity "
+             "(modification time, size, device+inode) at open (before the mmap), reads through the mapping at any time, and compares at the end (also when linking failed). Theorems: any rewrite, "
+             "append, touch, replacement by a freshly written file or replacement by a file carrying the old modification time and size after the open makes the verdict `changed`, whatever "
+             "else happens before, between and after; an untouched input is accepted; recording the identity after the mmap is refuted (the seeded change); the pinned tree's comparison of "
+             "modification times only is refuted for the time-preserving replacement (repaired in /repo); an in-place rewrite that restores the old time is refuted for any metadata comparison.",
         note="Partial: the model follows one path; that every input kind goes through FileData::open and loaded_files is exercised, not proved. Tie: object, archive, thin archive and member, -T "
              "script, implicit INPUT() script and the object it names, shared library x rewrite/append/touch/replace x every phase boundary (pause hook), failing-link variants, untouched "
              "controls, and the open->mmap window reached by strace delay injection; wild's accept/reject is compared with the model's verdict for the same trace.",
-        technique="Coq proof (clock/mtime monotonicity over arbitrary traces) + fault-timed runs of the real binary (pause hook, strace injection)",
+        technique="Coq proof (clock / mtime / inode monotonicity over arbitrary traces) + fault-timed runs of the real binary (pause hook, strace injection)",
         design_ref="DESIGN.md §3 C20"),
     "C25": dict(
         text="S1: the dependency file as data: prerequisites = the non-temporary loaded files in load order with later repeats dropped; the rule line rendered with Make escaping; a model of GNU "
